@@ -530,7 +530,7 @@ impl World for Multi {
                     }
                     (got, inv) => {
                         out.violation = Some((
-                            Violation::new(format!("multi-borrow-panicking-decision arity={} invalid={inv}", tuple.len()), format!("get_multiple_mut {tuple:?} over layout {:?}: {} although the request is {}", case.layout, if got.is_some() { "returned references" } else { "panicked" }, if inv { "invalid (repeated or missing type)" } else { "valid" })),
+                            Violation::new(format!("multi-borrow-panicking-decision arity={} invalid={inv}", tuple.len()), format!("get_multiple_mut {tuple:?} over scopes holding types {:?}: {} although the request is {}", shape, if got.is_some() { "returned references" } else { "panicked" }, if inv { "invalid (repeated or missing type)" } else { "valid" })),
                             narrowed(),
                         ));
                         break;
@@ -557,7 +557,7 @@ impl World for Multi {
                         break;
                     }
                     if *old != exp_old {
-                        out.violation = Some((Violation::new("multi-borrow-wrong-object", format!("tuple {tuple:?}: a reference does not point at the innermost value of its type (layout {:?})", case.layout)), narrowed()));
+                        out.violation = Some((Violation::new("multi-borrow-wrong-object", format!("tuple {tuple:?}: a reference does not point at the innermost value of its type (scopes holding types {:?})", shape)), narrowed()));
                         break;
                     }
                     for (t, v) in tuple.iter().zip(&vals) {
@@ -570,7 +570,7 @@ impl World for Multi {
                     out.violation = Some((
                         Violation::new(
                             format!("multi-borrow-decision arity={} repeats={r} missing={m}", tuple.len()),
-                            format!("tuple {tuple:?} (repeats={r}, missing={m}) over layout {:?}: got {}", case.layout, match other {
+                            format!("tuple {tuple:?} (repeats={r}, missing={m}) over scopes holding types {:?}: got {}", shape, match other {
                                 MultiOutcome::Repeat => "Err(MultipleBorrowConflict)".to_string(),
                                 MultiOutcome::Missing => "Err(NotFound)".to_string(),
                                 MultiOutcome::Refs { addrs, .. } => {
